@@ -586,7 +586,7 @@ pub fn run(op: &str, a: &Args) -> Option<Outcome> {
         ["info", kind, opn] => Some(info_op(kind, opn, a)),
         ["dom", kind, opn] => Some(dom_op(kind, opn, a)),
         ["order", "script"] => Some(crate::ops_more::order_script(arg(a, "script"))),
-        ["xpath", "corpus"] | ["xpath", "corpus_paths"] | ["xpath", "corpus_scalars"] | ["xpath", "corpus_names"] => Some(crate::ops_seq::xpath_corpus(arg(a, "doc").parse().unwrap_or(0), arg(a, "query"), arg(a, "expected"))),
+        ["xpath", "corpus"] | ["xpath", "corpus_paths"] | ["xpath", "corpus_scalars"] | ["xpath", "corpus_scalars0"] | ["xpath", "corpus_names"] => Some(crate::ops_seq::xpath_corpus(arg(a, "doc").parse().unwrap_or(0), arg(a, "query"), arg(a, "expected"))),
         ["xpath", rest @ ..] => crate::ops_more::xpath_op(rest, a),
         ["ctx", "script"] => Some(crate::ops_more::ctx_script(arg(a, "script"))),
         ["dom", "order_keys"] => Some(crate::ops_more::dom_order_keys(arg(a, "doc"))),
@@ -759,13 +759,15 @@ pub fn grid(op: &str, limit: usize) -> (usize, Vec<(Args, Outcome)>) {
                 try_one(mk(&[("scenario", sc)]), &mut n, &mut bad);
             }
         }
-        ["xpath", "corpus"] | ["xpath", "corpus_paths"] | ["xpath", "corpus_scalars"] | ["xpath", "corpus_names"] => {
-            // corpus_paths: node-set results of documents 0, 2, 3; corpus_names: document 1 (namespaces); corpus_scalars: the rest
+        ["xpath", "corpus"] | ["xpath", "corpus_paths"] | ["xpath", "corpus_scalars"] | ["xpath", "corpus_scalars0"] | ["xpath", "corpus_names"] => {
+            // corpus_names: documents 1 and 5 (namespaces); corpus_paths: node-set results of the other documents; corpus_scalars: the rest
             for line in crate::ops_seq::XPATH_CORPUS.lines() {
                 let mut it = line.splitn(3, '\t');
                 let (d, q, e) = (it.next().unwrap_or(""), it.next().unwrap_or(""), it.next().unwrap_or(""));
-                let part = if d == "1" { "corpus_names" } else if e.starts_with("NS:") { "corpus_paths" } else { "corpus_scalars" };
-                if parts[1] != "corpus" && parts[1] != part {
+                let part = if d == "1" || d == "5" { "corpus_names" } else if e.starts_with("NS:") { "corpus_paths" } else { "corpus_scalars" };
+                // corpus_scalars0 (C09): the scalar results over document 0 -- the function and operator pools
+                let wanted = parts[1] == "corpus" || parts[1] == part || (parts[1] == "corpus_scalars0" && part == "corpus_scalars" && d == "0");
+                if !wanted {
                     continue;
                 }
                 let q = crate::ops_more::unescape_line(q);
